@@ -62,7 +62,12 @@ def job_compose(job):
                 pats.add((json.dumps(cfg, sort_keys=True), name, ak, bk if name != 'normsq' else ()))
                 g, e = _safe(composite), _safe(elementary)
                 r = ref()
-                ok = g[0] == 'value' and e[0] == 'value' and O.eq(fr.mv_to_ref(g[1]), fr.mv_to_ref(e[1])) and O.eq(fr.mv_to_ref(g[1]), r)
+                # C06 compares the composite operator with the composition *as computed with the elementary operators*; the
+                # independent reference is reported for diagnosis only (a defect shared by both sides belongs to C02-C04)
+                if e[0] != 'value':
+                    out['not_comparable'] = out.get('not_comparable', 0) + 1
+                    continue
+                ok = g[0] == 'value' and O.eq(fr.mv_to_ref(g[1]), fr.mv_to_ref(e[1]))
                 if not ok and len(out['failures']) < 15:
                     out['failures'].append({'config': cfg, 'op': name, 'a': showmv(ak, a.values()), 'b': showmv(bk, b.values()),
                                             'got': str(todict(g[1]) if g[0] == 'value' else g[1])[:300],
